@@ -699,11 +699,15 @@ def next_decisions(decisions):
     return d
 
 
-def explore(run, make_ctx, max_paths=4000):
+def explore(run, make_ctx, max_paths=4000, budget_s=None):
     """Enumerate all feasible paths of `run()` (called with a fresh context each time).
 
     Yields (ctx, outcome) where outcome is ('ok', value) | ('raise', exc) | ('unsupported', exc).
+    `budget_s`: wall-clock budget for the whole enumeration (the consumer's time included); when it is used up the
+    remaining paths are given up as out of reach (what was decided so far stays decided).
     """
+    import time as _time
+    t0 = _time.time()
     decisions = []
     n = 0
     while decisions is not None:
@@ -730,6 +734,9 @@ def explore(run, make_ctx, max_paths=4000):
         if n > max_paths:
             raise Unsupported(f"more than {max_paths} paths")
         decisions = next_decisions(used)
+        if budget_s is not None and decisions is not None and _time.time() - t0 > budget_s:
+            raise Unsupported(f"time budget of {budget_s}s for this case used up after {n} paths (the code under check "
+                              f"branches on symbolic data more than the harness was sized for)")
 
 
 def local_paths(fn, assumptions=()):
